@@ -15,6 +15,7 @@ import (
 	"reduction.dev/reduction/dkv/storage"
 	"reduction.dev/reduction/dkv/wal"
 	"reduction.dev/reduction/util/size"
+	"reduction.dev/reduction/util/verifhook"
 )
 
 var flushMemTablesQueue = bg.NewQueue(5)
@@ -192,6 +193,7 @@ func (db *DB) Get(key []byte) (kv.Entry, error) {
 	if err == nil {
 		return v, nil
 	}
+	verifhook.Point("dkv-swap-window")
 
 	// Then try the SSTables. The sstables are read after the memtables so that
 	// an entry flushed in between is found in the table that replaced its memtable.
@@ -206,6 +208,7 @@ func (db *DB) ScanPrefix(prefix []byte, errOut *error) iter.Seq[kv.Entry] {
 	// The memtables are captured before the sstables so that entries flushed in
 	// between are found in the table that replaced their memtable.
 	memIter := db.mtables.ScanPrefixWithDeletes(prefix, errOut)
+	verifhook.Point("dkv-swap-window")
 	sstables := db.currentSSTables()
 	// Deleted entries are kept until everything is merged so that a newer
 	// tombstone masks older versions of its key in older tables.
@@ -289,6 +292,7 @@ func (db *DB) rotateMemtable() {
 
 		// Replace the set of sstables, clear old memtables, clear wal entries all
 		// in one lock
+		verifhook.Point("dkv-swap-window")
 		db.mu.Lock()
 		db.sstables = db.sstables.NewWithChangeSet(cs)
 		db.mtables.Dequeue(sealedTables)
@@ -306,6 +310,7 @@ func (db *DB) rotateMemtable() {
 					return nil
 				}
 
+				verifhook.Point("dkv-swap-window")
 				db.mu.Lock()
 				db.sstables = db.sstables.NewWithChangeSet(cs)
 				db.mu.Unlock()
